@@ -16,7 +16,8 @@ package main
 //   adv <seconds>            fake clock Advance, then settle
 //   put <k>                  k valid beacons head+1.. through h.Store().Put (the path the sync manager uses)
 //   gate | release           arm the one-shot gate on base.Last() / release the blocked caller
-//   partial <signer> <round> <good|badsig|badidx>   h.ProcessPartialBeacon with a real partial signature
+//   partial <signer> <round|c+K|c-K|h+K> <good|badsig|badidx>   h.ProcessPartialBeacon with a real partial
+//                            signature; the status is followed by :<resolved round>
 //   agg                      thr good partials of members 1..thr for round head+1
 //   reshare <round>          TransitionNewGroup to fresh shares of the same secret at <round>
 //   settle                   wait again (collect stragglers)
@@ -241,6 +242,7 @@ func (l *logTap) Write(p []byte) (int, error) {
 			l.c["future"]++
 		case m["broadcast_partial"] != nil:
 			l.c["nv"]++ // own partial handed to the aggregator right after this line
+			l.c["own"]++
 		case m["process_partial"] != nil && m["status"] == "OK":
 			l.c["nv"]++
 		case m["store_partial"] != nil:
@@ -322,6 +324,7 @@ type hKeys struct {
 	shares []*key.Share
 	pub    *share.PubPoly
 	commit []kyber.Point
+	truth  [][]byte // the one valid chain of this key set (genesis seed is fixed), extended on demand
 }
 
 var hKeyCache = map[string]*hKeys{}
@@ -385,7 +388,8 @@ type hSUT struct {
 	seenSync        int
 	seenTick        int
 	seenApp         int
-	quiet, long     time.Duration
+	quiet, maxWait  time.Duration
+	procs           int
 	started         bool
 }
 
@@ -393,16 +397,20 @@ func (s *hSUT) digest(round uint64, prev []byte) []byte {
 	return s.sch.DigestBeacon(&common.Beacon{Round: round, PreviousSig: prev})
 }
 
+// prevOf is the previous signature an honest member puts into its packet for `round`: the signature of
+// round-1, for both kinds of scheme (broadcastNextPartial sends upon.Signature also when the scheme is
+// unchained; the aggregator keys its cache by (round, previous signature)).
 func (s *hSUT) prevOf(round uint64) []byte {
-	if !s.chained {
-		return nil
-	}
 	return s.sig(round - 1)
 }
 
 // sig returns the unique valid group signature of round r on the one valid chain (the harness dealt the
 // shares, so it can recover it from thr partials).
 func (s *hSUT) sig(r uint64) []byte {
+	if len(s.keys.truth) > len(s.truth) {
+		s.truth = s.keys.truth
+	}
+	defer func() { s.keys.truth = s.truth }()
 	for uint64(len(s.truth)) <= r {
 		round := uint64(len(s.truth))
 		msg := s.digest(round, s.prevOfTruth(round))
@@ -493,8 +501,8 @@ func (s *hSUT) close() {
 	}
 }
 
-// pending reports whether the node's own log says that work is still in flight: a tick or a catch-up
-// wake-up that has not produced its n-1 packets yet, a partial handed to the aggregator that it has not
+// pending reports whether the node's own log says that work is still in flight: a signed partial that has
+// not reached its n-1 recipients yet, a partial handed to the aggregator that it has not
 // looked at yet, a full round cache not yet aggregated, an aggregated beacon the run loop has not been
 // told about yet, a launched catch-up goroutine that is not sleeping yet, a sleeper whose deadline passed.
 func (s *hSUT) pending() bool {
@@ -504,7 +512,7 @@ func (s *hSUT) pending() bool {
 	s.client.mu.Unlock()
 	s.logs.mu.Lock()
 	c := s.logs.c
-	p := got < (c["tick"]+c["cbroadcast"])*int64(s.n-1) ||
+	p := got < c["own"]*int64(s.n-1) ||
 		c["nv"] > c["ag"] || c["full"] > c["aggdone"] || c["launch"] > c["sleeping"] ||
 		(s.started && !blocked && c["aggregated"] > c["notapp"]+c["appseen"]+c["chanfull"])
 	s.logs.mu.Unlock()
@@ -522,10 +530,40 @@ func (s *hSUT) pending() bool {
 	return false
 }
 
-// settle waits (bounded) until nothing is pending and nothing observable changed for `quiet`.
+// settle waits (bounded) until the node is quiescent.
+//
+// The engine runs with GOMAXPROCS=1 by default: the harness goroutine yields (runtime.Gosched) and every
+// runnable goroutine of the node runs until it blocks before the harness runs again, so "nothing observable
+// happened during several consecutive yields and the node's own log says nothing is in flight" means that all
+// goroutines of the node are blocked — independent of how loaded the machine is. (With VERIF_HPROCS > 1 the
+// node's goroutines run in parallel and a quiet window of wall time is used instead.)
 func (s *hSUT) settle(due bool) {
 	start := time.Now()
 	last := atomic.LoadInt64(&s.activity)
+	if s.procs == 1 {
+		idle := 0
+		for {
+			runtime.Gosched()
+			a := atomic.LoadInt64(&s.activity)
+			if a != last {
+				last, idle = a, 0
+				continue
+			}
+			if time.Since(start) < s.maxWait && s.pending() {
+				idle = 0
+				time.Sleep(50 * time.Microsecond) // something is in a system call or being computed
+				continue
+			}
+			idle++
+			if idle >= 12 {
+				if s.baseKind == "bolt" && idle < 14 {
+					time.Sleep(300 * time.Microsecond)
+					continue
+				}
+				return
+			}
+		}
+	}
 	lastChange := start
 	sawAny := false
 	for {
@@ -535,11 +573,11 @@ func (s *hSUT) settle(due bool) {
 		if a != last {
 			last, lastChange, sawAny = a, now, true
 		}
-		if now.Sub(start) < 2*s.long && s.pending() {
+		if now.Sub(start) < s.maxWait && s.pending() {
 			lastChange = now
 			continue
 		}
-		if due && !sawAny && now.Sub(start) < s.long {
+		if due && !sawAny && now.Sub(start) < s.maxWait/2 {
 			continue
 		}
 		if now.Sub(lastChange) >= s.quiet {
@@ -632,6 +670,31 @@ func (s *hSUT) curPub() *share.PubPoly {
 	return s.pub
 }
 
+// roundSpec resolves "c+K" / "c-K" (relative to the round of the node's clock, 0 before genesis),
+// "h+K" (relative to the stored head) or an absolute round.
+func (s *hSUT) roundSpec(spec string) (uint64, bool) {
+	if len(spec) > 1 && (spec[0] == 'c' || spec[0] == 'h') {
+		k, err := strconv.Atoi(spec[1:])
+		if err != nil {
+			return 0, false
+		}
+		base := int64(s.head())
+		if spec[0] == 'c' {
+			now := s.clk.Now().Unix()
+			base = 0
+			if now >= hGenesis {
+				base = (now-hGenesis)/int64(s.period/time.Second) + 1
+			}
+		}
+		if base+int64(k) < 0 {
+			return 0, false
+		}
+		return uint64(base + int64(k)), true
+	}
+	r, err := strconv.ParseUint(spec, 10, 64)
+	return r, err == nil
+}
+
 func (s *hSUT) partial(signer int, round uint64, kind string) string {
 	prev := s.prevOf(round)
 	msg := s.digest(round, prev)
@@ -684,12 +747,20 @@ func (s *hSUT) partial(signer int, round uint64, kind string) string {
 
 func handlerEngine(args []string, in *bufio.Scanner, out *bufio.Writer) {
 	var s *hSUT
-	quiet := 8 * time.Millisecond
+	quiet := 10 * time.Millisecond
 	if v := os.Getenv("VERIF_SETTLE_MS"); v != "" {
 		if x, err := strconv.Atoi(v); err == nil && x > 0 {
 			quiet = time.Duration(x) * time.Millisecond
 		}
 	}
+	maxWait := 3 * time.Second // bound on waiting for work the node's log says is in flight
+	procs := 1
+	if v := os.Getenv("VERIF_HPROCS"); v != "" {
+		if x, err := strconv.Atoi(v); err == nil && x > 0 {
+			procs = x
+		}
+	}
+	runtime.GOMAXPROCS(procs)
 	defer func() {
 		if s != nil {
 			s.close()
@@ -700,6 +771,7 @@ func handlerEngine(args []string, in *bufio.Scanner, out *bufio.Writer) {
 		if len(f) == 0 {
 			continue
 		}
+		opStart := time.Now()
 		res := safely(func() string {
 			if f[0] != "init" && (s == nil || (s.h == nil && f[0] != "restart")) {
 				return "bad-op"
@@ -715,7 +787,7 @@ func handlerEngine(args []string, in *bufio.Scanner, out *bufio.Writer) {
 				cat, _ := strconv.Atoi(f[4])
 				lead, _ := strconv.Atoi(f[6])
 				s = &hSUT{n: n, thr: thr, period: time.Duration(per) * time.Second, catchup: time.Duration(cat) * time.Second,
-					chained: f[5] == "chained", baseKind: f[7], quiet: quiet, long: 25 * quiet}
+					chained: f[5] == "chained", baseKind: f[7], quiet: quiet, maxWait: maxWait, procs: procs}
 				name := crypto.UnchainedSchemeID
 				if s.chained {
 					name = crypto.DefaultSchemeID
@@ -840,13 +912,13 @@ func handlerEngine(args []string, in *bufio.Scanner, out *bufio.Writer) {
 				return s.report("idle")
 			case "partial":
 				signer, _ := strconv.Atoi(f[1])
-				round, _ := strconv.ParseUint(f[2], 10, 64)
-				if signer < 0 || signer >= s.n || round == 0 {
+				round, ok := s.roundSpec(f[2])
+				if signer < 0 || signer >= s.n || !ok || round == 0 {
 					return "bad-op"
 				}
 				st := s.partial(signer, round, f[3])
 				s.settle(false)
-				return s.report(st)
+				return s.report(fmt.Sprintf("%s:%d", st, round))
 			case "agg":
 				r := s.head() + 1
 				var sts []string
@@ -874,6 +946,9 @@ func handlerEngine(args []string, in *bufio.Scanner, out *bufio.Writer) {
 			}
 			return "bad-op"
 		})
+		if strings.Contains(res, " # ") {
+			res += fmt.Sprintf(" ms=%d", time.Since(opStart).Milliseconds())
+		}
 		fmt.Fprintln(out, res)
 		out.Flush()
 	}
